@@ -1,3 +1,4 @@
+import _compat_pickle
 import json
 import sys
 from abc import ABC, abstractmethod
@@ -248,9 +249,10 @@ class UnsafeImportsML(Analysis):
     def analyze(self, context: AnalysisContext) -> Iterator[AnalysisResult]:
         for node in context.pickled.properties.imports:
             shortened, _ = context.shorten_code(node)
-            all_modules = [
-                node.module.rsplit(".", i)[0] for i in range(0, node.module.count(".") + 1)
-            ]
+            # Below protocol 3 the unpickler renames Python 2 modules (`commands` is `subprocess`,
+            # `urlparse` is `urllib.parse`, ...): rate the module that would really be imported
+            module = _compat_pickle.IMPORT_MAPPING.get(node.module, node.module)
+            all_modules = [module.rsplit(".", i)[0] for i in range(0, module.count(".") + 1)]
             for module_name in all_modules:
                 if module_name in self.UNSAFE_MODULES:
                     risk_info = self.UNSAFE_MODULES[module_name]
